@@ -194,6 +194,10 @@ class History(RuleBasedStateMachine):
         files = files + [{'kind': 'rules', 'name': 'vars.rules', 'text': VARS_RULES}]
         txns = [dict(txns[0], field=None), dict(txns[1], field={'type': 'WIRE', 'memo': 'REF 1', 'code': 'x', 'vendor': 'y'}, description='NETFLIX ' + txns[1]['description']),
                 dict(txns[2], date=None)] + txns[3:]
+        # twins: the same description bought somewhere else / on another card - whatever is remembered per description must not leak between them
+        alt_loc = [l for l in lang.LOCATIONS if l != txns[3].get('location')][0]
+        alt_src = [x for x in lang.SOURCES if x != txns[1].get('source')][0]
+        txns = txns + [dict(txns[3], location=alt_loc), dict(txns[1], source=alt_src)]
         self.files, self.txns, self.rows = files, txns, rows
         self.dir = obs.write_rules('x', 'placeholder')[:-len('/placeholder')]
         for f in files:
@@ -247,14 +251,14 @@ class History(RuleBasedStateMachine):
         self.classes.add('same_path_rewrite')
 
     @precondition(lambda self: self.state['loaded'] is not None)
-    @rule(t=st.integers(0, 3))
+    @rule(t=st.integers(0, 5))
     def classify(self, t):
         self.steps.append(['classify', t])
         if len({i for _, i in self.loads}) >= 2:
             self.classes.add('nontrivial')
         if self.loads and self.loads[-1][0] == 'corrupt':
             self.classes.add('failed_load_then_classify')
-        self.compare({'k': 'classify', 'txn': self.txns[t], 'rows': self.rows})
+        self.compare({'k': 'classify', 'txn': self.txns[t % len(self.txns)], 'rows': self.rows})
 
     @precondition(lambda self: self.files is not None and any(f.get('edited') is not None for f in self.files))
     @rule(pick=st.integers(0, 9), mode=st.sampled_from(['first_match', 'most_specific', 'most_specific']))
@@ -263,24 +267,24 @@ class History(RuleBasedStateMachine):
         edited = [j for j, f in enumerate(self.files) if f.get('edited') is not None]
         j = edited[pick % len(edited)]
         self.load(i=self.files[j]['edited'], mode=mode, order='rules_first')
-        for t in range(4):
+        for t in range(len(self.txns)):
             self.classify(t=t)
         self.load(i=j, mode=mode, order='rules_first')
-        for t in range(4):
+        for t in range(len(self.txns)):
             self.classify(t=t)
         self.classes.add('edit_and_reload')
 
     @precondition(lambda self: self.files is not None)
-    @rule(i=st.integers(0, 5), t=st.integers(0, 3), mode=st.sampled_from(['first_match', 'most_specific']))
+    @rule(i=st.integers(0, 5), t=st.integers(0, 5), mode=st.sampled_from(['first_match', 'most_specific']))
     def engine_match(self, i, t, mode):
         i %= len(self.files)
         if self.files[i]['kind'] != 'rules':
             return
         self.steps.append(['engine', i, t, mode])
-        self.compare({'k': 'engine', 'path': self.path(i), 'mode': mode, 'txn': self.txns[t], 'rows': self.rows})
+        self.compare({'k': 'engine', 'path': self.path(i), 'mode': mode, 'txn': self.txns[t % len(self.txns)], 'rows': self.rows})
 
     @precondition(lambda self: self.files is not None)
-    @rule(i=st.integers(0, 5), t=st.integers(0, 3))
+    @rule(i=st.integers(0, 5), t=st.integers(0, 5))
     def reparse_and_match(self, i, t):
         """One long-lived MerchantEngine object re-parses another file's text, then matches."""
         i %= len(self.files)
@@ -288,14 +292,14 @@ class History(RuleBasedStateMachine):
             return
         self.steps.append(['reparse', i, t])
         self.classes.add('engine_object_reparse')
-        got = reparse_op(self, self.files[i]['text'], self.txns[t], self.rows)
-        exp = server().ask(None, {'k': 'parse_text', 'text': self.files[i]['text'], 'txn': self.txns[t], 'rows': self.rows})
+        got = reparse_op(self, self.files[i]['text'], self.txns[t % len(self.txns)], self.rows)
+        exp = server().ask(None, {'k': 'parse_text', 'text': self.files[i]['text'], 'txn': self.txns[t % len(self.txns)], 'rows': self.rows})
         if got != exp:
             raise Violation(f'a MerchantEngine that had parsed other files before gives {json.dumps(got)[:400]} for file {i}, a fresh engine gives {json.dumps(exp)[:400]}\n'
                             f'history: {json.dumps(self.steps)[:1200]}', self.case(), 'history-dependence')
 
     @precondition(lambda self: self.files is not None)
-    @rule(p=st.integers(0, len(EXPR_PAIRS) - 1), which=st.integers(0, 1), t=st.integers(0, 3), v=st.sampled_from([{'label': 'x', 'threshold': 9}, {'label': 'UBER', 'threshold': 1}, None]))
+    @rule(p=st.integers(0, len(EXPR_PAIRS) - 1), which=st.integers(0, 1), t=st.integers(0, 5), v=st.sampled_from([{'label': 'x', 'threshold': 9}, {'label': 'UBER', 'threshold': 1}, None]))
     def eval_expr(self, p, which, t, v):
         self.steps.append(['eval', p, which, t, v])
         prior = [s for s in self.steps[:-1] if s[0] == 'eval' and s[1] == p]
@@ -303,14 +307,14 @@ class History(RuleBasedStateMachine):
             self.classes.add('case_variant_exprs')
         if any(s[2] == which and s[4] != v for s in prior):
             self.classes.add('same_expr_different_vars')
-        self.compare({'k': 'eval', 'src': EXPR_PAIRS[p][which], 'txn': self.txns[t], 'vars': v, 'rows': self.rows})
+        self.compare({'k': 'eval', 'src': EXPR_PAIRS[p][which], 'txn': self.txns[t % len(self.txns)], 'vars': v, 'rows': self.rows})
 
     @precondition(lambda self: self.files is not None)
-    @rule(e=lang.bool_expr(2), t=st.integers(0, 3))
+    @rule(e=lang.bool_expr(2), t=st.integers(0, 5))
     def eval_generated(self, e, t):
         src = lang.render(e)
         self.steps.append(['evalsrc', src, t])
-        self.compare({'k': 'eval', 'src': src, 'txn': self.txns[t], 'vars': {'label': 'x', 'threshold': 9, 'is_large': True}, 'rows': self.rows})
+        self.compare({'k': 'eval', 'src': src, 'txn': self.txns[t % len(self.txns)], 'vars': {'label': 'x', 'threshold': 9, 'is_large': True}, 'rows': self.rows})
 
     @precondition(lambda self: self.files is not None)
     @rule(f=st.sampled_from(VIEW_FILTERS), pays=st.lists(st.tuples(st.integers(-5000, 50000).map(lambda c: c / 100.0), st.integers(0, 11), st.integers(0, 27)).map(list), min_size=1, max_size=5),
